@@ -57,6 +57,11 @@ CHECKS = {
    text="Every sequence of up to 5 (thorough 7) steps over {acquire, advance 125 ms / 500 ms / 1 s / 10 s, Sync with the same schema, Sync with only another schema changed, reconfigure burst only (up, down), qps only, both} from 5 start configurations runs through upstreamLimiter.GetOrDefault().TryAcquire() with client-go's clock redirected to a virtual clock; in every stable segment every pair of admitted calls satisfies count <= burst + qps*T and every run of calls after an idle gap admits at least min(run, burst, floor(qps*gap)). Engine A: 2-3 threads x 2 acquires at a frozen clock on a full bucket (admitted == min(calls, burst)) and acquirers racing a reconfiguration (calls starting after it returned obey the new burst), all interleavings up to 2 (thorough 3) preemptions.",
    ref="DESIGN.md §6 C06",
    note="Trusted: instrumented copy of client-go util/flowcontrol/throttle.go (clock seam only), golang.org/x/time/rate as is, exact float arithmetic for the chosen values; 429 answers for rejected calls are checked over the handler chain in C04."),
+ "C10": dict(cat="model_checking", engine="xstate",
+   technique="explicit-state BFS over create/update/delete/redelivery histories of overlapping clusters on the real UpstreamClusterController and clusters.Manager, hosts resolved through the real request filter and TLS callbacks after every event",
+   text="Every history to depth 6 (thorough 8) over 11 object versions of three clusters (names and server-name lists that overlap, collide, change case, move between clusters, an object whose own name is another cluster's server name), deletions, and redelivery of any object whose attempt asked for a requeue; after every event 12 probe hosts (upper/lower case, with ports, unclaimed) are resolved through ExtraRequestInfoFactory + WithUpstreamInfo and through WrapGetConfigForClient / SNIVerifyOptions: a host never resolves to a cluster that does not claim it, an event on one cluster never changes the resolution (or stops the context) of a name resolving to another, names of a deleted cluster stop resolving and its context is cancelled, while no delivery was refused exactly the claimed names resolve (iff), and serving certificate, client-CA pool and verify options are those of the resolved cluster (base configuration otherwise).",
+   ref="DESIGN.md §6 C10",
+   note="Trusted: the harness as informer + single worker (lister store edited directly, add-only VerifSync hook), fake clientset, generated ECDSA test certificates; the TLS handshake itself is not performed."),
 }
 def manifest():
     checks = []
